@@ -6,6 +6,7 @@ ASSUMPTIONS = list(ws_common.ASSUMPTIONS)
 
 def build(reg):
     ws_units.build(reg)
+    build_deflate(reg)
 
 
 def extra_checks(tier, seed):
@@ -16,3 +17,76 @@ def extra_checks(tier, seed):
     for name, (hyps, goal) in natives.join_lemma_obligations():
         out.append(solve("%s/lemma/" % __name__.split(".")[-1].upper() + name, hyps, goal, 20000))
     return out
+
+
+# ------------------------------------------------------------------------------------------ decompression limit
+DEFLATE = "autobahn.websocket.compress_deflate:PerMessageDeflate"
+
+
+def ext_zlib_decompress(ex, state, args, kwargs, sv):
+    """assumed contract of zlib's decompressobj.decompress(data[, max_length]): returns at most max_length octets of
+    the inflation of `data` (in the current stream state) and keeps the unconsumed input in `unconsumed_tail`"""
+    import z3
+    from pyvc.values import VBytes, VBool, BytesSort, fresh_name
+    o = state.heap[sv.oid]
+    full = z3.Const(fresh_name("inflated"), BytesSort)
+    o.fields["_last_full"] = VBytes(full)
+    ex.raise_if(state, z3.Bool(fresh_name("zlib_error")), "zlib.error")
+    if len(args) > 1:
+        def limited(a):
+            mx = ex.num(a)
+            if mx is None:
+                ex.raise_if(state, z3.BoolVal(True), "TypeError")
+            ex.raise_if(state, mx < 0, "ValueError")
+            n = z3.Length(full)
+            cut = z3.If(z3.And(mx > 0, n > mx), mx, n)          # max_length == 0 means "no limit"
+            state.heap[sv.oid].fields["_tail_nonempty"] = VBool(z3.And(mx > 0, n > mx))
+            return VBytes(z3.Extract(full, 0, cut))
+        return ex.dist(state, [args[1]], limited)
+    o.fields["_tail_nonempty"] = VBool(False)
+    return VBytes(full)
+
+
+def build_deflate(reg):
+    reg.external("zlib.decompress", ext_zlib_decompress)
+    reg.shape("ZDecomp", fields={"_last_full": "bytes", "_tail_nonempty": "bool"}, methods={"decompress": "zlib.decompress"})
+    reg.shape("PMDeflate", cls=DEFLATE, fields={"max_message_size": "opt:nat", "_decompressor": "obj:ZDecomp",
+                                                 "server_no_context_takeover": "bool", "client_no_context_takeover": "bool"})
+    reg.contract(
+        DEFLATE + ".decompress_message_data", props=["C16"], params={"self": "obj:PMDeflate", "data": "bytes"},
+        returns="bytes", modifies=["self._decompressor._last_full", "self._decompressor._tail_nonempty"],
+        ensures=[
+            # never truncated or altered: what is handed on is the whole inflation of this chunk ...
+            "result == self._decompressor._last_full",
+            # ... and nothing is left behind in the decompressor that would corrupt the next message
+            "not self._decompressor._tail_nonempty"],
+        raises={"zlib.error": "True", "ValueError": "False"},
+        known={}, spec_module="specs.ws")
+
+
+def replay_known(k):
+    """witness of the recorded finding, run against the real PerMessageDeflate + real zlib"""
+    from pyvc import replaylib as R
+    if k["id"] != "C16-deflate-limit-truncates":
+        return None
+    w = k["witness"]
+    code = """
+import json, zlib
+from autobahn.websocket.compress_deflate import PerMessageDeflate
+tx = PerMessageDeflate(True, False, False, 15, 15, 8)
+rx = PerMessageDeflate(False, False, False, 15, 15, 8, max_message_size=%d)
+def send(m):
+    tx.start_compress_message(); d = tx.compress_message_data(m) + tx.end_compress_message(); return d
+out = []
+for m in %r:
+    rx.start_decompress_message()
+    try:
+        got = rx.decompress_message_data(send(m)); rx.end_decompress_message(); out.append([len(got), got == m])
+    except Exception as e:
+        out.append(["exception", type(e).__name__])
+print(json.dumps(out))
+""" % (w["limit"], [bytes(m) for m in w["messages"]])
+    out = R.run_py(code)
+    truncated = isinstance(out, list) and out and out[0][0] != "exception" and out[0][1] is False
+    return {"reproduced": bool(truncated), "observed": out,
+            "required": "first message delivered whole or not at all; later messages unaffected"}
